@@ -32,6 +32,9 @@ SameRun(i, j) == \A k \in i..j : IsList(A(k)) \/ A(k).k = "unsup"
 ListRunsTellMembersApart ==
   \A i, j \in 1..N : (i < j /\ IsList(A(i)) /\ IsList(A(j)) /\ ~SameRun(i, j)) =>
      (A(i).k = "lagg" /\ A(j).k = "lagg" /\ A(i).cls # A(j).cls)
+\* nothing in a class body is a declaration gone wrong (an Element inside a tuple - a stray comma -, an Element class that was
+\* never instantiated): such a child is declared in the source and can never be built
+DeclarationsWellFormed == Schema[c].odd = {}
 \* repeated data elements need the ElementList machinery
 ListElementsInElementList == (\E i \in 1..N : A(i).k = "lelem") => Schema[c].elist
 Emit == PrintT("MIN " \o ToJson([cls |-> c, doc |-> MinDoc(c)]))
